@@ -95,6 +95,13 @@ var faultContexts = []faultContext{
 	{"in-iir", "[1, 2, 3].iir(e -> e, (e, l) -> l + %s).last()", false, false, ""},
 	{"in-visit", "[1, 2, 3].visit(0, (v, e) -> v + %s)", false, false, ""},
 	{"in-list-literal-index", "[1, %s, 3][0]", false, false, ""},
+	// the value that failed is used again (whatever the first failure left behind - a lock, a half-filled cache - the second use
+	// ends, with the error again)
+	{"lazy-number-stage-used-twice-in-try", "let q = [1, 2, 3].number((n, e) -> e + %s); try q.size() catch e -> (try q.size() catch 0 - 99)", true, false, ""},
+	{"lazy-combine-stage-used-twice-in-try", "let q = [1, 2, 3].combine((p, r) -> p + %s); try q.eval().size() catch e -> (try q[0] catch 0 - 99)", true, false, ""},
+	{"lazy-iir-stage-used-twice-in-try", "let q = [1, 2, 3].iir(e -> e, (e, l) -> l + %s); try q.string() catch e -> (try q.reverse().size() catch 0 - 99)", true, false, ""},
+	{"lazy-map-stage-used-twice-in-try", "let q = [1, 2, 3].map(e -> e + %s); try q.size() catch e -> (try q.sum() catch 0 - 99)", true, false, ""},
+	{"map-value-used-twice-in-try", "let q = {k: [1, 2].number((n, e) -> e + %s)}; try q.k.size() catch e -> (try q.k.size() catch 0 - 99)", true, false, ""},
 }
 
 const recPrelude = "func rec(n) 1 + rec(n + 1); "
@@ -191,7 +198,8 @@ func runC05(c *Ctx) {
 		{"map-method-callback", "{x: n}.map((k, v) -> f(v + 1)).x"}, {"minMax-key", "[n].minMax(e -> f(e + 1)).min"}, {"present-callback", "[n].present(e -> f(e + 1) > 0)"},
 		{"indexWhere-callback", "[n].indexWhere(e -> f(e + 1) > 0)"}, {"combine-callback", "[n, n].combine((p, q) -> f(p + 1)).first()"}, {"number-callback", "[n].number((i, e) -> f(e + 1)).first()"},
 		{"let-bound-alias", "let g = f; g(n + 1)"}, {"argument-of-static", "max(1, f(n + 1))"}, {"in-list-literal", "[f(n + 1)][0]"}, {"in-map-literal", "{v: f(n + 1)}.v"}, {"if-branch", "if n < 0 then 0 else f(n + 1)"},
-		{"string-method-receiver", "f(n + 1).string().len()"}, {"cross-callback", "[n].cross([1], (p, q) -> f(p + 1)).first()"}, {"compact-callback", "[n, n].compact((p, q) -> f(p + 1) > 0).size()"},
+		{"string-method-receiver", "f(n + 1).string().len()"}, {"catch-handler-after-panic", "try boom(n) catch e -> f(n + 1)"}, {"catch-handler-after-error", "try throw(\"x\") catch e -> f(n + 1)"},
+		{"catch-value-after-panic", "try boom(n) catch f(n + 1)"}, {"catch-value-after-index-error", "try [1][n + 5] catch f(n + 1)"}, {"cross-callback", "[n].cross([1], (p, q) -> f(p + 1)).first()"}, {"compact-callback", "[n, n].compact((p, q) -> f(p + 1) > 0).size()"},
 	}
 	var rr []*workerCase
 	for _, r := range routes {
